@@ -30,7 +30,9 @@ RULE = ("sessions on generated directories: 2-4 loaded species (1-3 residues eac
         "rectangular (3 numbers) and triclinic (9 numbers) boxes, scale factor 1, 0.5 or uniform in (0.02, 2]; "
         "call sequences: all ends+maps+extrapolate, no end, no maps, an end molecule added after the maps were "
         "calculated (then completed), two scale factors in turn, re-adding the same end, growing subset, unknown / "
-        "non-matching end molecule, end molecules with velocities (all / mixed), a target with another number of "
+        "non-matching end molecule, end molecules attached by add_end_molecule / add_end_molecules / "
+        "molecule_correspondence[name].end = mol in any mix, also after a complete_correspondence read, a refused or a "
+        "successful extrapolation or a calculate_exchange_maps, detaching with .end = None, end molecules with velocities (all / mixed), a target with another number of "
         "residues; one title line in twelve is empty; half of the Systems built step by step (constructor with the first "
         "0..n topologies, add_ftop / add_molecule_top for the rest, any order); residue numbers consecutive, with gaps, "
         "arbitrary, or repeated across molecules; plus the shipped BMIM/BF4 box. A session is non-trivial when distinct.")
@@ -264,12 +266,13 @@ def gen_rids(rs, spec, mode):
 
 
 PATTERNS = ["normal", "normal", "normal", "normal", "no_end", "no_calc", "late_end", "late_end", "two_scales", "readd",
-            "growing", "bad_end", "residue_mismatch"]
+            "growing", "bad_end", "residue_mismatch", "attr_after_extrap", "attr_after_extrap", "attr_after_failed",
+            "remove_end"]
 
 
 def gen_ops(rs, spec, with_end, s, s2, kind=None):
     pat = kind or str(rs.choice(PATTERNS))
-    if pat in ("late_end", "growing") and len(with_end) < 2:
+    if pat in ("late_end", "growing", "attr_after_extrap") and len(with_end) < 2:
         pat = "normal"
     ends = [["end", k] for k in with_end]
     if pat in ("normal", "residue_mismatch"):
@@ -289,9 +292,43 @@ def gen_ops(rs, spec, with_end, s, s2, kind=None):
         ops = ends[:1] + [["calc", s], ["extrap"]] + ends[1:] + [["calc", s2], ["extrap"]]
     elif pat == "bad_end":
         ops = [["end_unknown"]] + ends + [["end_alt", with_end[0]], ["calc", s], ["extrap"]]
+    elif pat == "attr_after_extrap":
+        # one species mapped and written, then the others attached and the whole thing again
+        ops = ends[:1] + [["calc", s], ["extrap"]] + ends[1:] + [["calc", s2], ["extrap"]]
+    elif pat == "attr_after_failed":
+        # a refused request first (nothing attached), then attachments, maps, output
+        ops = [["extrap"]] + ends + [["calc", s], ["extrap"]]
+    elif pat == "remove_end":
+        # detach one end molecule after a first output (nothing may be written for it), then attach it again
+        ops = ends + [["calc", s], ["extrap"], ["end_none", with_end[-1]], ["extrap"], ["end", with_end[-1]],
+                      ["calc", s2], ["extrap"]]
     else:
         raise ValueError(pat)
-    return ops, pat
+    return mix_routes(rs, ops, force_attr=pat.startswith("attr_")), pat
+
+
+def mix_routes(rs, ops, force_attr=False):
+    """the ways of attaching an end molecule: add_end_molecule, add_end_molecules (runs of consecutive attachments),
+    `manager.molecule_correspondence[name].end = molecule` (the documented alternative, used by the command line);
+    plus reads of complete_correspondence / parse_restrictions() at random places.  With force_attr every attachment
+    that follows the first request (calculate / extrapolate) goes through the attribute."""
+    out, seen_request = [], False
+    for op in ops:
+        if op[0] in ("calc", "extrap"):
+            seen_request = True
+        if op[0] == "end":
+            r = int(rs.randint(0, 5))
+            if (force_attr and seen_request) or r in (0, 1):
+                op = ["end_attr", op[1]]
+            elif r == 2 and out and out[-1][0] == "ends":
+                out[-1] = ["ends", out[-1][1] + [op[1]]]
+                continue
+            elif r == 2:
+                op = ["ends", [op[1]]]
+        if rs.randint(0, 6) == 0:
+            out.append(["read"])
+        out.append(op)
+    return out
 
 
 # ===================================================================== ground truth of a spec
@@ -405,6 +442,21 @@ def run_session(spec, keep=False):
                     if k not in ends:
                         ends[k] = Molecule.from_files(*d["aa"][k])
                     man.add_end_molecule(ends[k])
+                elif op[0] == "end_attr":
+                    k = op[1]
+                    if k not in ends:
+                        ends[k] = Molecule.from_files(*d["aa"][k])
+                    man.molecule_correspondence[spec["species"][k]["name"]].end = ends[k]
+                elif op[0] == "ends":
+                    for k in op[1]:
+                        if k not in ends:
+                            ends[k] = Molecule.from_files(*d["aa"][k])
+                    man.add_end_molecules(*[ends[k] for k in op[1]])
+                elif op[0] == "end_none":
+                    man.molecule_correspondence[spec["species"][op[1]]["name"]].end = None
+                elif op[0] == "read":
+                    o["read"] = sorted(man.complete_correspondence)
+                    man.parse_restrictions()
                 elif op[0] == "end_alt":
                     sp = spec["species"][op[1]]
                     a, b, p, v = alt_end(sp)
@@ -573,9 +625,20 @@ def case_term(spec, obs):
     for o in obs:
         op = o["op"]
         k = exc_code(o["exc"])
-        if op[0] == "end":
+        if op[0] in ("end", "end_attr"):
             sp = spec["species"][op[1]]
             ops.append("KAddEnd %s %s %s" % (nat(idx[op[1]]), t_end(sp["aa_atoms"], sp["aa_pos"], sp["aa_vel"]), nat(k)))
+        elif op[0] == "ends":
+            if k != 0:
+                raise RuntimeError("add_end_molecules raised on valid molecules: %r" % o["exc"])
+            for j in op[1]:
+                sp = spec["species"][j]
+                ops.append("KAddEnd %s %s %s" % (nat(idx[j]), t_end(sp["aa_atoms"], sp["aa_pos"], sp["aa_vel"]), nat(0)))
+        elif op[0] == "end_none":
+            ops.append("KRemoveEnd %s %s" % (nat(idx[op[1]]), nat(k)))
+        elif op[0] == "read":
+            if k != 0:
+                raise RuntimeError("reading complete_correspondence raised: %r" % o["exc"])
         elif op[0] == "end_alt":
             a, _, p, v = alt_end(spec["species"][op[1]])
             ops.append("KAddEnd %s %s %s" % (nat(idx[op[1]]), t_end(a, p, v), nat(k)))
@@ -605,8 +668,16 @@ class Bookkeeping:
     def after(self, o, man):
         """called right after every operation; returns the failed clauses of the property for it"""
         op, spec = o["op"], self.spec
-        if op[0] == "end" and o["exc"] is None and op[1] not in self.complete:
+        if op[0] in ("end", "end_attr") and o["exc"] is None and op[1] not in self.complete:
             self.complete.append(op[1])
+        elif op[0] == "ends" and o["exc"] is None:
+            self.complete += [k for k in op[1] if k not in self.complete]
+        elif op[0] == "end_none" and o["exc"] is None and op[1] in self.complete:
+            self.complete.remove(op[1])
+        elif op[0] == "read" and o["exc"] is None:
+            want = sorted(spec["species"][k]["name"] for k in self.complete)
+            if o["read"] != want:
+                return ["complete_correspondence lists %s, both resolutions are attached for %s" % (o["read"], want)]
         elif op[0] == "calc" and o["exc"] is None:
             for k in self.complete:
                 self.mapped[k] = op[1]
@@ -816,6 +887,9 @@ def shipped_spec(nmol, s=0.5, pattern="normal"):
         # System(gro, BMIM_CG.itp) then add_ftop(BF4_CG.itp): every BF4 precedes every BMIM in the shipped file
         spec["n_ctor"], spec["add_how"] = 1, [0, 0]
         spec["ops"] = ends + [["calc", s], ["extrap"]]
+    elif pattern == "attr_after_extrap":
+        # the demo of seeded C05-8: BMIM through add_end_molecule, mapped and written; then BF4 through the attribute
+        spec["ops"] = [["end", 1], ["calc", s], ["extrap"], ["end_attr", 0], ["calc", s], ["extrap"]]
     elif pattern == "late_end":
         spec["ops"] = [ends[0], ["calc", s], ends[1], ["extrap"], ["calc", s], ["extrap"]]
     else:
@@ -896,6 +970,7 @@ def corpus_specs():
         out.append(spec)
     out.append(empty_title_spec(rs))
     out += [incremental_witness(rs), gapped_resids_witness(rs)]
+    out += [attr_route_witness(rs, k) for k in range(4)]
     return out
 
 
@@ -914,6 +989,26 @@ def _two_species(rs, need_two_residues):
         b = [k for k in lo if k != a][0]
         if in_domain(spec, [a, b]):
             return spec, a, b
+
+
+def attr_route_witness(rs, variant):
+    """seeded C05-8: an end molecule attached through `molecule_correspondence[name].end = molecule` AFTER
+    complete_correspondence has been evaluated (0: by a successful calculate + extrapolate, 1: by a refused
+    extrapolate, 2: by a plain read, 3: detached through the attribute after an output) on the file A B A W B A"""
+    spec, a, b = _two_species(rs, False)
+    spec = relayout(rs, spec, [a, b, a, "W", b, a], [a, b])
+    s = spec["ops"][-2][1]
+    tail = [["calc", s], ["extrap"]]
+    if variant == 0:
+        spec["ops"] = [["end", a]] + tail + [["end_attr", b]] + tail
+    elif variant == 1:
+        spec["ops"] = [["extrap"], ["end_attr", a], ["end_attr", b]] + tail
+    elif variant == 2:
+        spec["ops"] = [["read"], ["end_attr", a], ["ends", [b]]] + tail
+    else:
+        spec["ops"] = [["ends", [a, b]]] + tail + [["end_none", b], ["extrap"], ["end_attr", b], ["extrap"]]
+    spec["pattern"] = "attr_route_%d" % variant
+    return spec
 
 
 def incremental_witness(rs):
@@ -985,7 +1080,7 @@ def corpus(ctx):
         check_spec(ctx, spec, "corpus")
         S["corpus"] += 1
         molgen.purge()
-    for pat in ("normal", "late_end", "incremental"):
+    for pat in ("normal", "late_end", "incremental", "attr_after_extrap"):
         check_spec(ctx, shipped_spec(6, pattern=pat), "corpus (shipped BMIM/BF4, first 6+6 molecules)")
         S["corpus"] += 1
         molgen.purge()
@@ -1008,6 +1103,7 @@ def correspondence(ctx):
     specs.append(shipped_spec(ctx.n(10, 40)))
     specs.append(shipped_spec(ctx.n(10, 40), pattern="late_end"))
     specs.append(shipped_spec(ctx.n(10, 40), pattern="incremental"))
+    specs.append(shipped_spec(ctx.n(10, 40), pattern="attr_after_extrap"))
     if not ctx.quick:
         # 100 + 100 molecules (3000 written atoms): the writer model rewrites its byte list at every write, the whole
         # box (9000 atoms) is beyond vm_compute's reach in K and goes through the S oracle (oracle(), thorough tier)
